@@ -272,7 +272,7 @@ func C14(c *vf.Check) {
 
 	// iterators held by ONE generator and created inside its steps: F_indep of MC_Src.tla
 	rule, bounds := c.Cov["rule"], c.Cov["bounds"]
-	runFam(c, famSpec{id: "C14", fam: "indep", name: "F_indep", sizeQ: "4", sizeT: "5", tapeQ: "1", tapeT: "2", callsQ: 6, callsT: 8,
+	runFam(c, famSpec{id: "C14", fam: "indep", name: "F_indep", sizeQ: "4", sizeT: "4", tapeQ: "1", tapeT: "2", callsQ: 6, callsT: 8,
 		keys: fullKeys, deleg: true, budget: 40, rule: "F_indep"})
 	// iterators handed OUT by a generator of generators, kept and advanced round-robin by the consumer
 	runFam(c, famSpec{id: "C14", fam: "gg", name: "F_gg", sizeQ: "3", sizeT: "4", tapeQ: "2", tapeT: "2", callsQ: 8, callsT: 10,
